@@ -5,6 +5,7 @@ import (
 	"context"
 	"encoding/base64"
 	"encoding/json"
+	"errors"
 	"fmt"
 	"io"
 	"math/rand/v2"
@@ -353,6 +354,19 @@ func (w *World) RoundTrip(req *http.Request) (*http.Response, error) {
 	// a real transport fails a request whose context is done with the context's error
 	if err := ctx.Err(); err != nil {
 		return nil, err
+	}
+	// ... and refuses what it cannot address, before anything goes on the wire
+	if req.URL.Scheme != "http" && req.URL.Scheme != "https" {
+		w.mu.Lock()
+		w.count("requests_refused_by_transport", 1)
+		w.mu.Unlock()
+		return nil, fmt.Errorf("unsupported protocol scheme %q", req.URL.Scheme)
+	}
+	if req.URL.Host == "" {
+		w.mu.Lock()
+		w.count("requests_refused_by_transport", 1)
+		w.mu.Unlock()
+		return nil, errors.New("http: no Host in request URL")
 	}
 	corr := CorrOf(ctx)
 	if corr == 0 {
